@@ -61,8 +61,8 @@ func (st *c01State) checkDispatch(q mon.Req) {
 		}
 		return
 	}
-	if q.Path == "" || q.Path == "*" {
-		return
+	if (q.Path == "" || q.Path == "*") && !o.NodeNil && o.NodePattern == "" {
+		return // the server-wide node (OPTIONS *): its answers are C04's business
 	}
 	if o.NodeNil {
 		c.Class("dispatch_404")
@@ -238,6 +238,7 @@ func c01Directed() []Directed {
 		mk("literal-suffix-treated-as-regexp", noneIC, []string{`/pages/{id:\d+}.html`}, get("/pages/5xhtml"), get("/pages/5.html")),
 		mk("name-prefix-split", noneIC, []string{"+b{idx}/x", "+b{id}", "+bd/q"}, get("+bdd/q"), get("+b7/x")),
 		mk("head-maps-to-get", noneIC, []string{"/h/{id}"}, mon.Req{Method: "HEAD", Path: "/h/7"}, mon.Req{Method: "PUT", Path: "/h/7"}, mon.Req{Method: "OPTIONS", Path: "/h/7"}),
+		mk("empty-path-and-asterisk-are-no-routes", noneIC, []string{"/", "/{path}", "{w}"}, get(""), get("*"), mon.Req{Method: "POST", Path: ""}, mon.Req{Method: "HEAD", Path: ""}, mon.Req{Method: "PUT", Path: "*"}, get("/"), get("/x")),
 		mk("ignored-param-not-reported", stdIC, []string{"/i/{-y}/{n:digit}", "/i/{-y}/x"}, get("/i/a/7"), get("/i/a/x"), get("/i/a/b")),
 	}
 }
@@ -257,6 +258,6 @@ func init() {
 			}
 			return map[string]int64{"route_after_abandoned_capture": 12000, "404_after_abandoned_capture": 200000, "dispatch_route_handler": 300000}
 		},
-		Assume: []string{"panicking requests are left to C05/C03", "paths \"\" and \"*\" are left to C04/C05"},
+		Assume: []string{"panicking requests are left to C05/C03", "the answers of the server-wide node (OPTIONS *) are left to C04"},
 	})
 }
